@@ -19,7 +19,7 @@ ASSUMPTIONS = ['timestamps, durations and the metadata blocks are not compared']
 
 
 def budget(tier):
-    return {'quick': 320, 'thorough': 6000}[tier]
+    return {'quick': 640, 'thorough': 8000}[tier]
 
 
 @st.composite
